@@ -126,7 +126,9 @@ static void case_c03x(const args_t *a, long c, rng_t *r)
 	snprintf(path, sizeof path, "%s/c03x-%ld.mtbl", a->workdir, c);
 	if (write_model(path, &cfg, &m, NULL) == 0) {
 		size_t nb = 0;
-		epos_t *ep = layout_of(path, &cfg, &m, NULL, &nb);
+		qset_t seps; memset(&seps, 0, sizeof seps);
+		epos_t *ep = layout_of(path, &cfg, &m, &seps, &nb);
+		g_extra_targets = &seps;
 		struct mtbl_reader *rd = open_reader(path, &cfg);
 		if (rd && ep && m.n >= 4) {
 			/* bounds: whole table; one block; a span across a block boundary; a prefix; get of a stored key; an empty answer */
@@ -149,6 +151,7 @@ static void case_c03x(const args_t *a, long c, rng_t *r)
 			case_hash(model_hash(&m) ^ fnv64(&cfg, sizeof cfg, 0));
 		} else if (!rd) viol("C03/reader-rejects-written-file", "reader NULL");
 		if (rd) mtbl_reader_destroy(&rd);
+		g_extra_targets = NULL; qset_free(&seps);
 		free(ep);
 	}
 	unlink(path);
@@ -166,6 +169,9 @@ static void case_c03h(const args_t *a, long c, rng_t *r)
 	if (pool) mtbl_threadpool_destroy(&pool);
 	if (rc == 0) {
 		struct mtbl_reader *rd = open_reader(path, &cfg);
+		qset_t seps; memset(&seps, 0, sizeof seps);
+		epos_t *ep = layout_of(path, &cfg, &m, &seps, NULL); free(ep);
+		g_extra_targets = &seps;
 		if (!rd) viol("C03/reader-rejects-written-file", "reader NULL");
 		else {
 			int reps = 4;
@@ -174,6 +180,7 @@ static void case_c03h(const args_t *a, long c, rng_t *r)
 			case_hash(model_hash(&m) ^ fnv64(&cfg, sizeof cfg, 0));
 			mtbl_reader_destroy(&rd);
 		}
+		g_extra_targets = NULL; qset_free(&seps);
 	}
 	unlink(path);
 	model_free(&m);
